@@ -314,6 +314,8 @@ def check(ctx):
     ties = E.Ties()
     ties.install()
     use_driver = ctx.build_ok is not False
+    if not use_driver:                       # a proof broke: the driver (models only) may still build
+        use_driver = ctx.lake_build(["Drivers.C09"])[0]
     try:
         _check(ctx, cfgs, plan, ties, use_driver)
     finally:
@@ -399,7 +401,7 @@ def _check(ctx, cfgs, plan, ties, use_driver):
 
     ctx.extra_cov["property_seconds"] = round(_time.time() - _tp, 1)
     if not use_driver:
-        ctx.note("Lean build failed: model correspondence skipped, property evaluated on the real assembler only")
+        ctx.note("Lean driver does not build: model correspondence skipped, property evaluated on the real assembler only")
         return
 
     # ---- 3. correspondence of the models on the same instances -------------------------------
